@@ -1,0 +1,35 @@
+//! Verification seam. Compiled only with `--cfg kanata_verif`; never part of a normal build.
+//!
+//! `src/kanata/mod.rs` (and the child modules that glob-import it) do
+//! `use crate::verif_seam::{self as std, instant, parking_lot};` under the same cfg, so that the
+//! existing `std::thread::{spawn, sleep}`, `std::sync::mpsc::*`, `instant::Instant` and
+//! `parking_lot::Mutex` paths resolve to the deterministic simulation runtime
+//! (`kanata_verif_rt`, provided by the verification build's manifest) without rewriting them.
+//! Everything else is the real `std` / `parking_lot`.
+#![allow(unused_imports)]
+
+pub use ::std::*;
+
+pub mod thread {
+    pub use ::std::thread::*;
+
+    pub use kanata_verif_rt::thread::{sleep, spawn, JoinHandle};
+}
+
+pub mod sync {
+    pub use ::std::sync::*;
+
+    pub mod mpsc {
+        pub use kanata_verif_rt::mpsc::*;
+    }
+}
+
+pub mod instant {
+    pub use kanata_verif_rt::instant::*;
+}
+
+pub mod parking_lot {
+    pub use ::parking_lot::*;
+
+    pub use kanata_verif_rt::parking_lot::{Mutex, MutexGuard};
+}
